@@ -6,6 +6,10 @@ ALL = ['C%02d' % i for i in range(1, 21)]
 
 # id -> (engine, technique, level text, level note, design ref)
 CLAIMED = {
+ 'C04': ('E3-hypothesis', 'property-based testing with sentinel documents: differential over six output formats against the generated source, with validity predicates (accepted escape spellings, verbatim round-trip, XML parse / LaTeX nesting scanner)',
+         'Generated documents whose every word is a unique sentinel and whose reserved characters and verbatim payloads are bracketed by sentinels are rendered to HTML, LaTeX, Beamer, Memoir, FODT and OPML; after visible-text extraction the body-word sequence must equal the source sequence (notes as their own subsequence, attribute text never duplicated), every reserved character must appear in an accepted escaped spelling for the target, verbatim payloads must round-trip, and markup must nest. Held on everything generated; one known finding (\\% in LaTeX verbatim) is reported as such.',
+         'Trusted: Hypothesis, expat, the accepted-spelling tables and the LaTeX nesting scanner in props/c04.py. Only one of bare < / bare > per document (angle-pair ambiguity); whether LaTeX would typeset the result is not judged.',
+         'DESIGN.md section 5, C04'),
  'C08': ('E3-hypothesis', 'property-based testing with a real XML parser (expat) as well-formedness oracle and a format-vocabulary check as containment oracle, over hostile generated documents',
          'Generated documents place hostile payloads (& < > quotes, attribute break-outs, comment/CDATA closers, entities, CriticMarkup and math delimiters, tabs, multi-byte text) in every text and attribute slot; OPML, FODT, ITMZ map data and every XML/XHTML member of ODT and EPUB packages must parse with expat, and every element/attribute name must belong to the format vocabulary (text that broke out would create foreign names). Held on everything generated; two known findings pinned by stored expectations are reported as such.',
          'Trusted: expat, Python zipfile. Raw HTML and user-typed named entities are not generated (raw passthrough is outside the statement).',
